@@ -552,11 +552,13 @@ def merge_file_level(
 
         old_value, field = fields[name]
 
+        previous = getattr(new, name)
         setattr(new, name, value)
         try:
             validate_field(new, field, value)
         except Exception as exc:
-            setattr(new, name, getattr(config, name))
+            # restore the copy's own value (not the global object, which must stay unshared)
+            setattr(new, name, previous)
             warning(MystWarnings.MD_TOPMATTER, str(exc))
             continue
         # the validator may have stored a normalised form of the value
